@@ -125,4 +125,262 @@ def frameIds : FrameIdArg → Except String (List String)
 def checkTask (support : List String) (s : String) : Except String (Option String) :=
   if support.contains s then .ok (setTask s) else .error "ValueError"
 
+/-! ## value-level model: WHAT a parser hands back (audit round 1, item 6)
+
+Above, a member is represented by its name string, so a parser that hands back the member `Visibility.FULL`
+and one that hands back the `str` `'FULL'` (defect F12: `for k, v in …: if v == name: return k`) have the same
+model.  `PyRet` keeps them apart: the value-level parsers (`…V`) are the code as it is NOW (the loop returns
+the member `v`), the `…_F12` variants are the code before fix 5c0bd61 (the loop returned the key `k`, a `str`;
+`SensorModality.from_value` fell off the end).  `PyRet` is also the type of an ARGUMENT of a string-or-enum
+call site (`Shape`, `TransformKey`, `FrameID.from_task`): a `str`, a member of some enum class, `None`.
+The link to the string-level model (`Properties/C20.lean`): `xFromValueV s = (xFromValue s).map (PyRet.member "X")`
+(`…V_eq`), so the string-level theorems transfer; erasing the kind (`PyRet.erase`) gives the same string-level result
+for the current parsers AND for the F12 variants (`F12_same_erasure`). -/
+
+/-- a Python value as far as the enum parsers and their call sites tell values apart: a member of an enum
+class (`enum` = the class name, `name` = the member name), a plain `str`, or `None` -/
+inductive PyRet where
+  | member (enum : String) (name : String)
+  | str (s : String)
+  | none
+deriving Repr, DecidableEq, Inhabited
+
+/-- the value a call returns, or the kind of exception raised -/
+abbrev PyRes := Except String PyRet
+
+/-- what the string-level model keeps of a value -/
+def PyRet.erase : PyRet → Option String
+  | .member _ n => some n
+  | .str s => some s
+  | .none => Option.none
+
+/-- `isinstance(x, <enum>)` -/
+def PyRet.isMemberOf (enum : String) : PyRet → Bool
+  | .member e _ => e == enum
+  | _ => false
+
+/-- string-level result of a value-level result (`None` has no string-level counterpart in `Res`: `setTask` uses `Option`) -/
+def PyRes.erase : PyRes → Except String (Option String)
+  | .ok v => .ok v.erase
+  | .error k => .error k
+
+/-- `for _, v in cls.__members__.items(): if v == name: return v` — the loop hands back the MEMBER `v` -/
+def firstMemberV (enum : String) (t : Table) (s : String) : Option PyRet :=
+  (t.find? (fun p => p.2 == s)).map fun p => PyRet.member enum p.1
+
+/-- F12: `for k, v in cls.__members__.items(): if v == name: return k` — hands back the KEY, a `str` -/
+def firstKey_F12 (t : Table) (s : String) : Option PyRet :=
+  (t.find? (fun p => p.2 == s)).map fun p => PyRet.str p.1
+
+/-- `EvaluationTask.from_value` -/
+def taskFromValueV (s : String) : PyRes :=
+  match firstMemberV "EvaluationTask" Gen.evaluationTask s with
+  | some v => .ok v
+  | none => .error "ValueError"
+
+/-- `set_task(task_name)`: the member, or falls off the end (`None`) -/
+def setTaskV (s : String) : PyRet :=
+  match firstMemberV "EvaluationTask" Gen.evaluationTask s with
+  | some v => v
+  | none => .none
+
+/-- `FrameID.from_value` -/
+def frameFromValueV (s : String) : PyRes :=
+  match firstMemberV "FrameID" Gen.frameID s.toLower with
+  | some v => .ok v
+  | none => .error "ValueError"
+
+/-- `Visibility.from_alias`: an if / elif chain of `return Visibility.X`.  The alias table holds the NAME of the
+member the running `from_alias` answered (the translator writes `repr` instead if the answer is no member, and then
+`C20.alias_targets_members` fails), so the answer is a member of `Visibility` -/
+def visibilityFromAliasV (s : String) : PyRet := .member "Visibility" (visibilityFromAlias s)
+
+/-- `Visibility.from_value` (now: `return v`) -/
+def visibilityFromValueV (s : String) : PyRes :=
+  match firstMemberV "Visibility" Gen.visibility s with
+  | some v => .ok v
+  | none => .ok (visibilityFromAliasV s)
+
+/-- `Visibility.from_value` before 5c0bd61 (`return k`) -/
+def visibilityFromValue_F12 (s : String) : PyRes :=
+  match firstKey_F12 Gen.visibility s with
+  | some v => .ok v
+  | none => .ok (visibilityFromAliasV s)
+
+/-- `SensorModality.from_value` (now: `return v`, `raise ValueError` after the loop) -/
+def sensorFromValueV (s : String) : PyRes :=
+  match firstMemberV "SensorModality" Gen.sensorModality s with
+  | some v => .ok v
+  | none => .error "ValueError"
+
+/-- `SensorModality.from_value` before 5c0bd61 (`return k`; falls off the end: `None`) -/
+def sensorFromValue_F12 (s : String) : PyRes :=
+  match firstKey_F12 Gen.sensorModality s with
+  | some v => .ok v
+  | none => .ok .none
+
+/-- `ShapeType.from_value` (now: `return v`) -/
+def shapeTypeFromValueV (s : String) : PyRes :=
+  match firstMemberV "ShapeType" Gen.shapeType s with
+  | some v => .ok v
+  | none => .error "ValueError"
+
+/-- `ShapeType.from_value` before 5c0bd61 (`return k`) -/
+def shapeTypeFromValue_F12 (s : String) : PyRes :=
+  match firstKey_F12 Gen.shapeType s with
+  | some v => .ok v
+  | none => .error "ValueError"
+
+/-- `MatchingLabelPolicy.from_str`: `name = name.upper(); assert name in cls.__members__; return cls.__members__[name]` -/
+def policyFromStrV (s : String) : PyRes :=
+  let u := s.toUpper
+  if (names Gen.matchingLabelPolicy).contains u then .ok (.member "MatchingLabelPolicy" u) else .error "AssertionError"
+
+/-- a variant of `from_str` that would hand the (upper-cased) string back instead of indexing `__members__` -/
+def policyFromStr_S (s : String) : PyRes :=
+  let u := s.toUpper
+  if (names Gen.matchingLabelPolicy).contains u then .ok (.str u) else .error "AssertionError"
+
+/-- an `Arg` of the string-level model as a value: a member of the enum class the call site expects -/
+def argV (enum : String) : Arg → PyRet
+  | .str s => .str s
+  | .member m => .member enum m
+
+/-- the three documented spellings of one member `(name, value)` at a string-or-enum call site -/
+def spellingsV (enum : String) (p : String × String) : List PyRet :=
+  [.str p.2, .str p.2.toUpper, .member enum p.1]
+
+/-! ### `Shape(shape_type, size, footprint)` (`common/shape.py`) -/
+
+/-- `x != ShapeType.BOUNDING_BOX` as Python evaluates it (`__calculate_corners`): for a member identity, for a `str`
+the reflected string-aware `ShapeType.__eq__` (`self.value == other`), for `None` always different -/
+def neBoundingBox : PyRet → Bool
+  | .member e n => !(e == "ShapeType" && n == "BOUNDING_BOX")
+  | .str s => !(firstByValue Gen.shapeType s == some "BOUNDING_BOX")
+  | .none => true
+
+/-- what `Shape.type` holds after `Shape.__init__`, or the exception raised:
+```
+if isinstance(shape_type, str): shape_type = ShapeType.from_value(shape_type)
+self.type = shape_type
+self.footprint = footprint if footprint else self.__calculate_corners(shape_type, size)
+```
+`footprintTruthy`: an explicit, non-empty footprint polygon was given -/
+def shapeInitV (shapeType : PyRet) (footprintTruthy : Bool) : PyRes := do
+  let t ← match shapeType with
+    | .str s => shapeTypeFromValueV s
+    | v => pure v
+  if footprintTruthy then pure t
+  else if neBoundingBox t then throw "ValueError" else pure t
+
+/-- seeded change C20_G: the conversion moved into the branch that derives the footprint; with an explicit footprint the
+argument is stored verbatim -/
+def shapeInitV_G (shapeType : PyRet) (footprintTruthy : Bool) : PyRes :=
+  if footprintTruthy then pure shapeType
+  else do
+    let t ← match shapeType with
+      | .str s => shapeTypeFromValueV s
+      | v => pure v
+    if neBoundingBox t then throw "ValueError" else pure t
+
+/-- `Shape.__init__` on top of the F12 parser (`ShapeType.from_value` returning the name string) -/
+def shapeInitV_F12 (shapeType : PyRet) (footprintTruthy : Bool) : PyRes := do
+  let t ← match shapeType with
+    | .str s => shapeTypeFromValue_F12 s
+    | v => pure v
+  if footprintTruthy then pure t
+  else if neBoundingBox t then throw "ValueError" else pure t
+
+/-! ### `TransformKey(src, dst)` / `HomogeneousMatrix(…, src, dst)` (`common/transform.py`) -/
+
+/-- `FrameID.from_value(x) if isinstance(x, str) else x`: anything that is no `str` is stored as it is -/
+def frameOfArgV : PyRet → PyRes
+  | .str s => frameFromValueV s
+  | v => .ok v
+
+/-- `TransformKey(src, dst)`: what `key.src`, `key.dst` hold -/
+def transformKeyV (src dst : PyRet) : Except String (PyRet × PyRet) := do
+  let a ← frameOfArgV src
+  let b ← frameOfArgV dst
+  pure (a, b)
+
+/-- seeded change C20_B: `dst` is parsed when `src` is a `str` (wrong variable); `FrameID.from_value(member)` then fails on
+`member.lower()` -/
+def transformKeyV_B (src dst : PyRet) : Except String (PyRet × PyRet) := do
+  let a ← frameOfArgV src
+  let b ← match src with
+    | .str _ => (match dst with
+        | .str d => frameFromValueV d
+        | _ => .error "AttributeError")
+    | _ => pure dst
+  pure (a, b)
+
+/-- seeded change C20_J: both arguments are parsed only when both are `str` -/
+def transformKeyV_J (src dst : PyRet) : Except String (PyRet × PyRet) :=
+  match src, dst with
+  | .str s, .str d => do
+    let a ← frameFromValueV s
+    let b ← frameFromValueV d
+    pure (a, b)
+  | a, b => pure (a, b)
+
+/-! ### `FrameID.from_task(task)` (`common/schema.py`) -/
+
+/-- `EvaluationTask.is_3d()` of the member called `m`, as the running code answers (regenerated table) -/
+def taskIs3d (m : String) : Bool := Gen.taskIs3d.lookup m == some "true"
+
+/-- the branches of `from_task` once `task` is (or should be) a member:
+```
+if task.is_2d(): raise ValueError
+if task in (EvaluationTask.DETECTION, EvaluationTask.SENSING): return FrameID.BASE_LINK
+elif task in (EvaluationTask.TRACKING, EvaluationTask.PREDICTION): return FrameID.MAP
+else: raise ValueError
+```
+a value that is no `EvaluationTask` member has no `is_2d` (`AttributeError`) -/
+def frameOfTaskMember : PyRet → PyRes
+  | .member e m =>
+    if e != "EvaluationTask" then .error "AttributeError"
+    else if !(taskIs3d m) then .error "ValueError"
+    else if m == "DETECTION" || m == "SENSING" then .ok (.member "FrameID" "BASE_LINK")
+    else if m == "TRACKING" || m == "PREDICTION" then .ok (.member "FrameID" "MAP")
+    else .error "ValueError"
+  | _ => .error "AttributeError"
+
+/-- `FrameID.from_task(task)`: `if isinstance(task, str): task = EvaluationTask.from_value(task)`, then the branches -/
+def frameFromTaskV (task : PyRet) : PyRes := do
+  let t ← match task with
+    | .str s => taskFromValueV s
+    | v => pure v
+  frameOfTaskMember t
+
+/-- a variant without the conversion of a `str` argument (the branches are run on the argument as given) -/
+def frameFromTaskV_noconv (task : PyRet) : PyRes := frameOfTaskMember task
+
+/-! ### the parse sites taking several strings, value level -/
+
+/-- `for task in EvaluationTask: if s == task.value: append(task)` — the MEMBERS are appended -/
+def membersNamedV (enum : String) (t : Table) (s : String) : List PyRet :=
+  (t.filter (fun p => p.2 == s)).map fun p => PyRet.member enum p.1
+
+/-- `set_task_lists` -/
+def setTaskListsV (l : List String) : List PyRet :=
+  l.flatMap (membersNamedV "EvaluationTask" Gen.evaluationTask)
+
+/-- a variant of `set_task_lists` that appends `task.name` instead of `task` -/
+def setTaskListsV_N (l : List String) : List PyRet :=
+  l.flatMap fun s => (Gen.evaluationTask.filter (fun p => p.2 == s)).map fun p => PyRet.str p.1
+
+/-- `set_task_dict`: the keys are members -/
+def setTaskDictV {α : Type} (kv : List (String × α)) : List (PyRet × α) :=
+  kv.flatMap fun e => (membersNamedV "EvaluationTask" Gen.evaluationTask e.1).map fun m => (m, e.2)
+
+/-- the `frame_id` argument of an evaluation config -/
+def frameIdsV : FrameIdArg → Except String (List PyRet)
+  | .one s => (frameFromValueV s).map fun m => [m]
+  | .many l => l.mapM frameFromValueV
+
+/-- `_check_tasks` -/
+def checkTaskV (support : List String) (s : String) : PyRes :=
+  if support.contains s then .ok (setTaskV s) else .error "ValueError"
+
 end PEval.Enums
